@@ -439,6 +439,7 @@ struct Centre {
     bool borderline = false;     // a bend-fits decision closer than 1e-7 to its threshold
     bool runaway = false;        // an intersection of consecutive displaced lines far outside its segments
     std::string why;
+    bool smooth_deg = false;     // an outer-side join whose two side points are closer than a quarter of the half width
     std::vector<int> bent;       // per spine vertex: 1 bend, 0 corner
     V t_first, t_last;
 };
@@ -539,9 +540,15 @@ static Centre centre_line(const Array<Vec2>& sp, const Vec2* wo, BendType bend, 
             if (l0 <= 0 || l1 <= 0) continue;
             V u0v = d0 * (1 / l0), u1v = d1 * (1 / l1);
             ld den = crossl(u0v, u1v);
-            if (fabsl(den) < 1e-8L) continue;
+            if (fabsl(den) < 1e-8L) {
+                C.smooth_deg = true;
+                continue;
+            }
             bool inner = sd > 0 ? den > 0 : den < 0;
-            if (!inner) continue;
+            if (!inner) {
+                if (lenl(r2 - r1) < 0.25L * (ld)wo[k].u) C.smooth_deg = true;
+                continue;
+            }
             V dp = r2 - r1;
             ld s0 = crossl(dp, u1v) / den, s1 = crossl(dp, u0v) / den;
             // intersection = r1 + s0 u0v = r2 + s1 u1v; inside the side segments when -l0 <= s0 <= 0 <= s1 <= l1
@@ -601,7 +608,7 @@ static void region_case(Builder& B, uint64_t e, const std::string& gid, Polygon*
             // smooth joins run Curve::interpolation from one side point to the next; at a straight-through
             // or gently turning vertex the two points (nearly) coincide and the spline is 0 / 0
             em.P(cfg.join == JoinType::Smooth
-                     ? "FAIL FlexPath::to_polygons:smooth-join-nan the outline has NaN vertices: smooth join between (nearly) coincident side points at a straight-through or gently turning vertex"
+                     ? "FAIL FlexPath::to_polygons:smooth-join-degenerate the outline has NaN vertices: smooth join between (nearly) coincident side points at a straight-through or gently turning vertex"
                      : "FAIL flexpath-outline-nan the outline has NaN or infinite vertices");
             return;
         }
@@ -669,11 +676,19 @@ static void region_case(Builder& B, uint64_t e, const std::string& gid, Polygon*
                  ": the intersection of two almost parallel displaced lines (taper slope close to the turn angle) runs away along them");
         }
     }
-    if (C.runaway && !spiky) {
+    std::string flag_key = "FlexPath::to_polygons:corner-runaway";
+    if (cfg.join == JoinType::Smooth && C.smooth_deg && !spiky && !C.runaway) {
+        // Curve::interpolation between two side points that almost coincide: the spline is ill-conditioned
+        // (NaN when they coincide to an ulp, overshoot of many widths otherwise)
         spiky = true;
-        em.K("spike", gid + ":" + std::to_string(e));
-        em.I("fold");
-        em.P("FAIL FlexPath::to_polygons:corner-runaway " + C.why + ": two almost parallel lines (taper slope close to the turn angle) are intersected");
+        flag_key = "FlexPath::to_polygons:smooth-join-degenerate";
+        em.T("flagged-smooth-join-between-close-side-points");
+    }
+    if (C.runaway && !spiky) {
+        // no outline vertex is far from the spine, but the construction is ill-conditioned here (see Centre::why):
+        // a disagreement of the region check on this element is attributed to that
+        spiky = true;
+        em.T("flagged-corner-runaway-geometry");
     }
     size_t m = C.pts.size();
     std::vector<ld> rc(m - 1), rf(m - 1);
@@ -755,23 +770,29 @@ static void region_case(Builder& B, uint64_t e, const std::string& gid, Polygon*
             std::vector<bool> keep(cext.size() - 1);
             for (size_t i = 0; i + 1 < cext.size(); i++)
                 keep[i] = lenl(cext[i] - endp) > clear && lenl(cext[i + 1] - endp) > clear;
-            size_t best0 = 0, bestn = 0, cur0 = 0, curn = 0;
-            for (size_t i = 0; i < keep.size(); i++) {
-                if (keep[i]) {
-                    if (!curn) cur0 = i;
-                    curn++;
-                    if (curn > bestn) { bestn = curn; best0 = cur0; }
-                } else curn = 0;
-            }
-            bool all_other_dropped_are_near_end = true;
+            // the dropped pieces must be one run at that end of the path: otherwise the path comes back near its
+            // own end and no claim is made about this cap
+            size_t first_keep = 0, last_keep = 0;
+            bool any = false;
             for (size_t i = 0; i < keep.size(); i++)
-                if (!keep[i] && !(i < best0 ? side == 0 : (i >= best0 + bestn ? side == 1 : false)) && bestn) all_other_dropped_are_near_end = false;
-            if (!all_other_dropped_are_near_end) continue;  // the path comes back near its own end: no cap claim
-            for (size_t i = best0; i < best0 + bestn; i++) {
-                rest.push_back(cext[i]);
-                rrest.push_back(rfe[i]);
+                if (keep[i]) {
+                    if (!any) first_keep = i;
+                    last_keep = i;
+                    any = true;
+                }
+            bool simple = true;
+            if (any)
+                for (size_t i = first_keep; i <= last_keep; i++)
+                    if (!keep[i]) simple = false;
+            if (any && (side == 0 ? last_keep + 1 != keep.size() : first_keep != 0)) simple = false;
+            if (!simple) continue;
+            if (any) {
+                for (size_t i = first_keep; i <= last_keep; i++) {
+                    rest.push_back(cext[i]);
+                    rrest.push_back(rfe[i]);
+                }
+                rest.push_back(cext[last_keep + 1]);
             }
-            if (bestn) rest.push_back(cext[best0 + bestn]);
             std::string rr;
             for (size_t i = 0; i < rrest.size(); i++) rr += (i ? " " : "") + hex_i64((int64_t)floorl(rrest[i] * (ld)GRID));
             capstr[side] = plane_str(ep, td, tolf) + "|" + hexpts(rest) + "|" + rr;
@@ -847,7 +868,7 @@ static void region_case(Builder& B, uint64_t e, const std::string& gid, Polygon*
                           ";C=" + hexpts(ccov) + ";E=" + hexpts(cext) + ";RC=" + radii(rcc) + ";RF=" + radii(rfe) +
                           ";PL=" + planes + ";K0=" + capstr[0] + ";K1=" + capstr[1] + ";S=" + hexpts(smp);
     if (spiky) em.T(std::string("spiky-in-family-") + (B.family == 0 ? "polyline" : (B.family == 1 ? "curved" : "mixed")));
-    em.K(spiky ? "region_spiky" : "region", payload);
+    em.K(spiky ? "region_flagged" : "region", spiky ? "k=" + flag_key + ";" + payload : payload);
     em.I("ok");
     em.T(std::string("region-join-") + join_name(cfg.join));
     em.T(std::string("region-end-") + end_type_name(cfg.end));
@@ -1014,8 +1035,9 @@ static void run_path(uint64_t seed, uint64_t idx, const std::string& outdir, FIL
         else if (idx == 1) c.bend_radius = 1.2;
         else if (idx == 2) { c.wA = 1; c.wB = 4; c.bend_radius = 1.2; }
         else if (idx == 3) c.bend_radius = 3;     // control: fits everywhere in both functions
-        else {                                    // smooth join at a straight-through vertex
+        else {                                    // smooth join at straight-through vertices (side points 1 ulp apart)
             c.wA = c.wB = 2;
+            c.oA = c.oB = -1.75;
             c.join = JoinType::Smooth;
             c.bend = BendType::None;
         }
@@ -1083,7 +1105,10 @@ static void run_path(uint64_t seed, uint64_t idx, const std::string& outdir, FIL
         // (0,0) -> (10,0) -> (10,10) -> (20,10) -> (20,20), width tapering over the whole path
         fp.spine.point_array[0] = Vec2{0, 0};
         std::vector<Vec2> pts = {Vec2{10, 0}, Vec2{10, 10}, Vec2{20, 10}, Vec2{20, 20}};
-        if (idx == 4) pts = {Vec2{10, 0}, Vec2{20, 0}, Vec2{20, 10}};
+        if (idx == 4) {
+            fp.spine.point_array[0] = Vec2{0, 8.219188};
+            pts = {Vec2{-72.413605, 8.219188}, Vec2{-145.178605, 8.219188}, Vec2{-203.70298, 8.219188}};
+        }
         Array<Vec2> arr = {};
         arr.items = pts.data();
         arr.count = pts.size();
